@@ -157,7 +157,10 @@ private:
         if (strm.state_.compare_exchange_strong(
                 oldState,
                 state::source_next_completed,
-                std::memory_order_relaxed)) {
+                std::memory_order_relaxed,
+                // on failure we may go on to read cleanupOp_, which the
+                // thread that requested cleanup published with a release
+                std::memory_order_acquire)) {
           // We acquired ownership of the receiver before it was cancelled.
           auto* receiver = std::exchange(strm.nextReceiver_, nullptr);
           UNIFEX_ASSERT(receiver != nullptr);
